@@ -1012,6 +1012,9 @@ impl YaccParser<'_> {
                                                 ));
                                             }
                                             self.num_newlines += 1;
+                                            // Only "*/" closes a comment: a '/' at the start of
+                                            // the next line does not.
+                                            continue;
                                         }
                                         '*' => (),
                                         _ => continue,
